@@ -89,9 +89,26 @@ def c02_random(tier, rng):
     return out
 
 
+def c02_const_sides():
+    """A literal on the LEFT or on the right of every binary operator, against every operand type (the operator must not be
+    mirrored, commuted or re-typed because one side is constant)."""
+    out = []
+    for (t, w, _), op, k in itertools.product(TYPES, BINOPS, ["3", "7U", "(-5)", "200LL", "0x10", "1"]):
+        if op in SHIFT and k in ("(-5)", "200LL"):
+            continue
+        d = decl(t, w, "a", "s")
+        out.append(f"{{ {d} RddV = {k} {op} a; }}")
+        out.append(f"{{ {d} RddV = a {op} {k}; }}")
+    for (t, w, _), k in itertools.product(TYPES, ["3", "7U", "(-5)", "200LL"]):
+        d = decl(t, w, "a", "s")
+        out.append(f"{{ {d} RddV = ({k} <= a) ? {k} : a; }}")
+        out.append(f"{{ {d} if ({k} >= a) {{ RddV = 1; }} else {{ RddV = {k} - a; }} }}")
+    return out
+
+
 def c02(tier):
     rng = random.Random(seed() * 7919 + 2)
-    return c02_depth1() + c02_depth2(tier, rng) + c02_random(tier, rng)
+    return c02_depth1() + c02_const_sides() + c02_depth2(tier, rng) + c02_random(tier, rng)
 
 
 def wf_subs():
@@ -323,6 +340,13 @@ def c05_struct():
         out.append(f"{{ {dc} for (i = 0; c && (i < 2); i++) {{ RxV = RxV + 1; }} }}")
         out.append(f"{{ {dc} if (c >> {w - 1}) {{ RxV = 1; }} }}")
         out.append(f"{{ {dc} if (c & ({'1ULL' if w == 64 else '1'} << {w - 1})) {{ RxV = 1; }} else {{ RxV = 2; }} }}")
+    for (t, w, sg) in TYPES:
+        sh = max(2, w // 4)
+        if not sg:  # an arithmetic right shift of a negative value never reaches zero
+            out.append(f"{{ {t} q; RxV = 0; for (q = {src(w, 'u')}; q; q >>= {sh}) {{ RxV = RxV + 1; }} }}")
+            out.append(f"{{ {t} q; RxV = 0; for (q = {src(w, 'u')}; q != 0; q = q >> {sh}) {{ RxV = RxV + 2; }} RyV = q; }}")
+        out.append(f"{{ {t} q; RxV = 0; for (q = {src(w, 'u')}; q; q <<= {sh}) {{ RxV = RxV + 1; }} }}")
+        out.append(f"{{ {decl(t, w, 'q', 'u')} int m; RxV = 0; for (m = 0; q; m++) {{ q = q << {sh}; RxV = RxV + 1; }} RyV = m; }}")
     out.append("{ if (RssV) { RxV = 1; } else { RxV = 2; } }")
     out.append("{ if (RssV & 0xffffffff00000000ULL) { RxV = 1; } else { RxV = 2; } }")
     out.append("{ RxV = (RssV << 32) ? 1 : 2; }")
@@ -395,6 +419,16 @@ def c06_contexts(h):
         f"if (RuV) {{ RyV = {h}; }}",
         f"RyV = (RuV && {h});",
         f"RyV = (RuV || {h});",
+        # un-braced arms and bodies, bare (value unused) in either arm
+        f"if (RuV) {h};",
+        f"if (RuV) RyV = 1; else {h};",
+        f"if (RuV) {h}; else RyV = 2;",
+        f"if (RuV) RyV = {h}; else RyV = 5;",
+        f"if (RuV) RyV = 5; else RyV = {h};",
+        f"for (i = 0; i < 2; i++) {h};",
+        f"for (i = 0; i < 2; i++) RyV = RyV + {h};",
+        f"if (RuV) {{ {h}; }} else {{ RyV = 3; }}",
+        f"if (RuV) {{ RyV = 3; }} else {{ {h}; }}",
     ]
 
 
@@ -775,6 +809,10 @@ def c17(tier):
 
 
 # ------------------------------------------------------------------------------------------ mixed
+MIX_OPERANDS = ["siV", "SiV", "uiV", "UiV", "riV", "miV", "niV", "PyV", "RwN", "PyN", "NwN", "P0", "P3", "P1_NEW", "R3", "R3:2", "R3_NEW", "M1",
+                "HEX_REG_ALIAS_SP", "HEX_REG_ALIAS_LR", "HEX_REG_ALIAS_FP", "HEX_REG_ALIAS_GP", "HEX_REG_ALIAS_USR", "HEX_REG_ALIAS_UTIMER",
+                "HEX_REG_ALIAS_LC0", "HEX_REG_ALIAS_SA1", "HEX_REG_ALIAS_LR_NEW", "RwV", "RxV"]
+MIX_DESTS = ["PeV", "HEX_REG_ALIAS_LR", "HEX_REG_ALIAS_SP", "HEX_REG_ALIAS_USR", "HEX_REG_ALIAS_UPCYCLE", "R2", "R13", "P2", "M0", "JUMP"]
 MIX_REGS32 = ["RwV", "RxV", "siV", "UiV", "PyV"]  # letters s,t,u,v belong to the locals (single or pair)
 
 
@@ -785,14 +823,17 @@ class Mixed:
     && || ?:, constant-only subtrees, signed division, chained assignment, early return), so that a violation reported on a
     mixed program is a new one."""
 
-    def __init__(self, rng, stmt_expr=True, calls=()):
+    def __init__(self, rng, stmt_expr=True, calls=(), operands=False):
         self.rng = rng
+        self.operands = operands  # C07: leaves and destinations of every operand kind
         self.calls = list(calls)  # (name, arity) of sub-routines registered through the public API
         self.stmt_expr = stmt_expr  # F20 (statement of a statement-expression rendered twice) is an open C12/C15 finding
 
     def expr(self, depth, vars_):
         rng = self.rng
         if depth == 0 or rng.random() < 0.18:
+            if self.operands and rng.random() < 0.5:
+                return rng.choice(MIX_OPERANDS)
             return rng.choice(vars_ + (MIX_REGS32 if rng.random() < 0.3 else []))
         r = rng.random()
         sub = lambda: self.expr(depth - 1, vars_)  # noqa
@@ -805,7 +846,7 @@ class Mixed:
         if r < 0.40:
             return f"({sub()} {rng.choice(LOGIC)} {sub()})"
         if r < 0.52:
-            cnt = rng.choice(["1", "3", "7", "8", "15", "31", f"({rng.choice(vars_)} & 7)", f"({rng.choice(vars_)} & 31)"])
+            cnt = self.count()
             return f"({sub()} {rng.choice(SHIFT)} {cnt})"
         if r < 0.62:
             return f"({sub()} {rng.choice(CMP)} {sub()})"
@@ -816,17 +857,29 @@ class Mixed:
             return f"({sub()} {op} {rng.choice(['1', '0x7f', '255', '0x10', '100U', '0xffffLL', '65535', '-1'])})"
         return f"({sub()} {op} {sub()})"
 
+    def count(self, mask=31):
+        """Shift counts of every type class (the signedness / width of the COUNT must not influence the result type)."""
+        rng = self.rng
+        v = rng.choice(self.names)
+        return rng.choice(["1", "3", "7", "8", "15", "31" if mask == 31 else "5", "3U", "7U", "1ULL", "2LL", f"({v} & 7)", f"({v} & {mask})",
+                           f"((uint32_t){v} & 7)", f"((uint64_t){v} & {mask})", f"((int8_t){v} & 7)", "(UiV & 7)", "(uiV & 3)"])
+
     def stmt(self, depth, vars_, loopv):
         rng = self.rng
         r = rng.random()
         v = rng.choice(vars_)
         e = lambda d=2: self.expr(rng.choice([1, d]), vars_)  # noqa
+        if self.operands and r < 0.22:
+            d = rng.choice(MIX_DESTS)
+            if d == "JUMP":
+                return f"JUMP({e()});"
+            return f"{d} = {e(3)};" + (f" {v} = {d};" if rng.random() < 0.3 and not d.startswith(("ReV", "PeV")) else "")
         if depth == 0 or r < 0.30:
             return f"{v} = {e(3)};"
         if r < 0.42:
             op = rng.choice(['+=', '-=', '*=', '<<=', '>>=', '&=', '^=', '|='])
             if op in ("<<=", ">>="):
-                return f"{v} {op} {rng.choice(['1', '3', '5', '7', f'({rng.choice(vars_)} & 7)'])};"
+                return f"{v} {op} {self.count(7)};"
             return f"{v} {op} {e() if rng.random() < 0.7 else rng.choice(['1', '3', '5'])};"
         if r < 0.52:
             body = self.block(depth - 1, vars_, loopv)
@@ -835,7 +888,12 @@ class Mixed:
             return f"if ({e()}) {{ {body} }} else {{ {self.block(depth - 1, vars_, loopv)} }}"
         if r < 0.58 and loopv:
             lv = loopv[0]
-            return f"for ({lv} = 0; {lv} < {rng.choice(['1', '2', '3'])}; {lv}++) {{ {self.block(depth - 1, vars_ , loopv[1:])} }}"
+            body = self.block(depth - 1, vars_, loopv[1:])
+            k = rng.choice(['1', '2', '3'])
+            head = rng.choice([f"{lv} = 0; {lv} < {k}; {lv}++", f"{lv} = 0; {lv} < {k}; {lv}++", f"{lv} = 0; {lv} < {k}; {lv} = {lv} + 1",
+                               f"{lv} = 0; {lv} < {k}; {lv} += 1", f"{lv} = {k}; {lv} > 0; {lv}--", f"{lv} = 1; {lv} <= {k}; {lv}++",
+                               f"{lv} = 0; {lv} != {k}; {lv}++"])
+            return f"for ({head}) {{ {body} }}"
         if r < 0.66:
             w = rng.choice(["8", "16", "32", "64"])
             return f"EA = RwV + {rng.choice(['0', '1', '4', '8'])}; mem_store_u{w}(EA, {e()});"
@@ -846,6 +904,11 @@ class Mixed:
             h = rng.choice([f"clz32({e()})", f"clo32({e()})", f"revbit32({e()})", f"fbrev({e()})", f"conv_round({e()}, 2)",
                             f"extract32({e()}, 3, 9)", f"sextract64({e()}, 2, 13)", f"deposit32({e()}, 4, 8, {e()})", f"bswap32({e()})",
                             f"extract64({e()}, 5, 40)"])
+            if rng.random() < 0.25:
+                # a call nested in a macro argument / in another call's argument
+                inner = rng.choice([f"clz32({e()})", f"revbit32({e()})"] + [f"{n_}({', '.join(e() for _ in range(a_))})" for n_, a_ in self.calls])
+                h = rng.choice([f"extract32({inner}, 2, 7)", f"deposit32({e()}, 4, 8, {inner})", f"bswap32({inner})", f"sextract64({inner}, 1, 12)",
+                                f"clo32({inner})", f"fbrev({inner})"])
             if self.calls and rng.random() < 0.7:
                 name, ar = rng.choice(self.calls)
                 h = f"{name}({', '.join(e() for _ in range(ar))})"
@@ -869,6 +932,7 @@ class Mixed:
     def program(self):
         rng = self.rng
         names = ["a", "b", "c", "d"][:rng.choice([2, 3, 3, 4])]
+        self.names = names
         ds = []
         for n_, l in zip(names, "stuv"):
             t = rng.choice(TYPES)
@@ -878,9 +942,9 @@ class Mixed:
         return f"{{ {' '.join(ds)} int i; int j; {body} {obs} }}"
 
 
-def mixed(tier, n=None, salt=77, stmt_expr=True, calls=()):
+def mixed(tier, n=None, salt=77, stmt_expr=True, calls=(), operands=False):
     rng = random.Random(seed() * 7919 + salt)
-    g = Mixed(rng, stmt_expr, calls)
+    g = Mixed(rng, stmt_expr, calls, operands)
     n = n if n is not None else (3000 if tier == "thorough" else 150)
     out = []
     while len(out) < n:
